@@ -483,8 +483,9 @@ def run_impl(case: dict) -> Tuple[List[str], List[List[str]], List[Optional[int]
             status = impl.apply(op)
         except Exception as e:  # a well-formed request must answer, not raise
             status = "raised"
-            # a direct API call may raise and a malformed path is C05's matter: there the answer is only compared
-            verdicts.append([] if (k.startswith("api_") or k in ("raw", "load")) else ["raised:" + type(e).__name__])
+            # a direct API call (and a refused configuration) may raise: there the answer is only compared; NO request path may
+            # raise any more (F-C05-2: a handler that lacks an option is answered `failure`), malformed ones included
+            verdicts.append([] if (k.startswith("api_") or k == "load") else ["raised:" + type(e).__name__])
             flags.append(impl.power_flag() if k in ("tick", "power") else None)
             out.append(status if impl.fs is None else f"{status} | {dump_impl(impl.fs, impl.pc)} | {describe_impl(impl.fs)}")
             if impl.fs is None:
